@@ -48,6 +48,13 @@ def run(chk):
         chk.variant(prog)
         r1(chk, prog, v)
         r2(chk, prog, v)
+        if v == "default":
+            with chk.shared():
+                # the bytes produced depend on the locale in force *during the call* only: the library keeps no process-wide state
+                # besides its listed configuration globals (shared with C18) - a separator or format sampled once and cached
+                # would be such a state
+                from . import c18
+                c18.r3(chk, prog, v)
     chk.undecided_clauses += [
         "byte-identical results under a synthesized comma locale (needs execution under such a locale)",
         "behaviour of libc's uselocale/newlocale themselves",
